@@ -50,7 +50,7 @@ W5_MONITORS = ['bijection']
 CASE_TIMEOUT = {"quick": 90, "thorough": 180}
 SIZES = {"quick": 600, "thorough": 10000}
 KINDS = ("relabel", "redundant", "repack", "repack", "reload", "self", "unrelated", "finder", "near", "symatom",
-         "sympath", "sympath", "finder3", "finder3", "finder3")
+         "sympath", "sympath", "finder3", "finder3", "finder3", "rotated")
 
 
 def shard_setup(tier):
@@ -157,6 +157,25 @@ def gen_cases(tier, seed):
                 if rng.random() < 0.5:
                     p2.update(sym=False, inferral=[])
             kind = rng.choice(("finder", "sympath", "sympath"))
+        elif kind == "rotated":
+            # negatives that differ only in the constructors: after the letter x only x may
+            # follow, so C(x^k) = {x^k} + C(x^(k+1)) and C(x^(k+1)) = {x} x C(x^k) - the same
+            # two-cycle entered at the union on one side and at the product on the other
+            al = rng.choice(("ab", "ab", "abc"))
+            x = rng.choice(al)
+            pats = {x + y for y in al if y != x}
+            if rng.random() < 0.4:
+                pats.add("".join(rng.choice(al) for _ in range(rng.choice((2, 3)))))
+            k = rng.choice((1, 1, 2))
+            c1 = {"prefix": x * (k + 1), "patterns": sorted(pats), "alphabet": al, "just_prefix": False,
+                  "stats": [], "bytes": False, "proper": False, "right": None}
+            c2 = dict(c1, prefix=x * k)
+            if rw.is_empty(c1) or rw.is_empty(c2):
+                continue
+            p1.update(sym=False, inferral=[], factory=None, plus=False, twice=[], layout="initial", dead=False,
+                      split=rng.random() < 0.5)
+            p2 = dict(p1, split=False, order=rng.choice((0, 1, 2)))
+            kind = "near"
         elif kind == "finder3":
             # three letters, the symmetry and two-step expansions (rules with 5-6 children): the
             # matcher backtracks a lot, so matches accepted under the hypothesis that an
